@@ -6,6 +6,7 @@ import (
 	"go/ast"
 	"go/token"
 	"go/types"
+	"regexp"
 	"strings"
 
 	"golang.org/x/tools/go/types/typeutil"
@@ -223,10 +224,11 @@ func hasMember(d *declInfo, facts []memberFact, key string, present bool, kind s
 	return false
 }
 
-func sameKey(a, b string) bool {
-	norm := func(s string) string {
-		s = strings.ReplaceAll(s, ".GetId()", ".Id")
-		return strings.TrimSpace(s)
-	}
-	return norm(a) == norm(b)
+var getterRe = regexp.MustCompile(`\.Get([A-Z][A-Za-z0-9_]*)\(\)`)
+
+// normText rewrites generated getter calls to the field they read: x.GetId() ≡ x.Id.
+func normText(s string) string {
+	return strings.TrimSpace(getterRe.ReplaceAllString(s, ".$1"))
 }
+
+func sameKey(a, b string) bool { return normText(a) == normText(b) }
